@@ -97,7 +97,7 @@ def obligations(cx):
     ctrm = {'Membrane.get_penetrant_data': CM.penetrant_data_contract(1, False), 'numpy.linalg.lstsq': CM.lstsq_contract}
     ps = cx.explore(call(src, 'Membrane.calculate_activation_energy', [c1], self_obj=mem), contracts=ctrm)
     all_raise(cx, "incomplete.single-experiment-without-activation-energy", ps, ERR, function='Membrane.calculate_activation_energy')
-    ctrm = {'Membrane.get_penetrant_data': CM.penetrant_data_contract(1, False), 'min(key=)': CM.min_key_contract}
+    ctrm = {'Membrane.get_penetrant_data': CM.penetrant_data_contract(1, False), 'min(key=)': CM.min_key_contract, 'numpy.searchsorted': CM.searchsorted_contract}
     ps = cx.explore(call(src, 'Membrane.get_permeance', [], dict(temperature=Tt, component=c1), self_obj=mem), contracts=ctrm, pre=[Tt > 0])
     cx.ob("incomplete.single-experiment-without-activation-energy.get_permeance", [], blit(all(p.outcome == 'raise' and p.value in ERR for p in ps if z3sat(p.pc + [ne(app('xT', lift(0), *flatten(c1.f['name'])), Tt)]))),
           kind='paths', function='Membrane.get_permeance', statement="away from the experiment's temperature a single experiment without activation energy is rejected")
